@@ -158,6 +158,104 @@ def loop_traces(exe):
     expect("E2 every send line removed (a hook removed) -> missing-send clauses", run(t7, "nosend"), ["C10-send-missing-step", "C11-chord-missing"])
 
 
+def sys_level(exe):
+    """the same controls one level lower: traces recorded under the REAL driver (system calls scripted), the full-stack start-up, a walk through the loop"""
+    wd = workdir("selftest-sys")
+    L = lambda a, t="", k="", x="": {"a": a, "t": t, "k": k, "x": x}
+    layout = [e2.M(["A"], ["B"]), e2.M(["S"], ["S"], e2.S(["C"]))]
+    sched = [L("arrK", "P", "A"), L("arrK", "R", "A"), L("poll", "dev", "", "KT"), L("readK"), L("readK"), L("readK"), L("arrK", "E", ""), L("poll", "dev", "", "KT"), L("readK")]
+    su = [L("held", "", "A"), L("gkey"), L("read"), L("poll"), L("arrK", "R", "A"), L("gkey"), L("grab")]
+    cp = os.path.join(wd, "cases.ndjson")
+    write_ndjson(cp, [{"id": "s", "layout": layout, "sched": sched, "sleep": "no", "faults": 0, "mode": "sys", "noise": 3},
+                      {"id": "f", "layout": layout, "sched": sched, "sleep": "no", "faults": 0, "mode": "full", "noise": 1, "su": su}])
+    tp = os.path.join(wd, "trace.ndjson")
+    run_tmv(exe, ["loop", cp], stdout_path=tp)
+    base = read_ndjson(tp)
+    for mod, ext, consts in (("LT", "LoopTrace", "MCKnown == {}"), ("ST", "StartupTrace", "")):
+        with open(os.path.join(wd, mod + ".tla"), "w") as f:
+            f.write("---- MODULE %s ----\nEXTENDS %s\n%s\n====\n" % (mod, ext, consts))
+    with open(os.path.join(wd, "LT.cfg"), "w") as f:
+        f.write("SPECIFICATION Spec\nCONSTANTS\n  KnownIds <- MCKnown\nPOSTCONDITION Accepted\nCHECK_DEADLOCK FALSE\n")
+    with open(os.path.join(wd, "ST.cfg"), "w") as f:
+        f.write("SPECIFICATION Spec\nPOSTCONDITION Accepted\nCHECK_DEADLOCK FALSE\n")
+
+    def run(mod, mutate, label):
+        rows = copy.deepcopy(base)
+        if mutate:
+            rows = mutate(rows) or rows
+        p = os.path.join(wd, "t_%s.ndjson" % label)
+        write_ndjson(p, rows)
+        r = TlcRun(wd, mod + ".tla", mod + ".cfg", env={"TRACE": p}, name=mod.lower() + "_" + label, deque=True).run()
+        if r.other_error():
+            return {"TOOL-ERROR: " + r.other_error()[:200]}
+        out = set()
+        for l in r.printed("BAD" if mod == "LT" else "SU-BAD"):
+            out |= set(parse_tla_value(l)[2])
+        acc = parse_tla_value(r.printed("ACCEPTED" if mod == "LT" else "SU-ACCEPTED")[0])
+        if acc[1] != acc[2]:
+            out.add("NOT-CONSUMED")
+        return out
+    expect("SYS traces under the real driver / full stack: accepted by LoopTrace", run("LT", None, "clean"), [])
+    expect("SYS full-stack start-up as recorded: accepted by StartupTrace", run("ST", None, "clean"), [])
+
+    def idx(rows, pred, nth=0):
+        return [i for i, r in enumerate(rows) if pred(r)][nth]
+
+    def s1(rows):   # the write of a step is split in two (what a chunking RealDriver::send would log)
+        i = idx(rows, lambda r: r.get("c") == "send" and len(r.get("evs", [])) == 1)
+        rows.insert(i + 1, dict(rows[i], evs=[]))
+        rows[i]["evs"] = [{"t": "P", "k": "X"}]
+    expect("SYS a decoded write changed -> C10 payload clause", run("LT", s1, "payload"), ["C10-wrong-payload-step"])
+
+    def s2(rows):   # the grab is issued although the last snapshot showed a key down (the gkey before it is dropped)
+        i = idx(rows, lambda r: r.get("c") == "su" and r.get("k") == "grab")
+        del rows[i - 1]
+    expect("SYS grab without a quiet snapshot -> start-up clause", run("ST", s2, "grab"), ["SU-grab-although-keys-were-reported-down", "SU-unexpected-call-grab"])
+
+    def s3(rows):   # one key bit is not announced
+        i = idx(rows, lambda r: r.get("c") == "su" and r.get("k") == "keybits")
+        rows[i]["vals"] = [v for v in rows[i]["vals"] if v != 30]
+    expect("SYS a key bit missing in the uinput set-up -> start-up clause", run("ST", s3, "keybit"), ["SU-uinput-key-bits"])
+
+    def s4(rows):   # one byte of uinput_user_dev differs
+        i = idx(rows, lambda r: r.get("c") == "su" and r.get("k") == "udev")
+        rows[i]["bytes"][80] = 5
+    expect("SYS a byte of uinput_user_dev changed -> start-up clause", run("ST", s4, "udev"), ["SU-uinput-user-dev-bytes"])
+
+    # a walk through the real loop, judged by the mapper clauses: one written event is dropped from a step
+    jp = os.path.join(wd, "walkjobs.json")
+    json.dump({"jobs": [{"id": "w", "layout": layout, "keys": "auto", "maxheld": 3, "steps": 60, "seed": 5, "via": "loop", "noise": 2}]}, open(jp, "w"))
+    wp = os.path.join(wd, "walk.ndjson")
+    run_tmv(exe, ["walk", jp], stdout_path=wp)
+    wbase = read_ndjson(wp)
+    with open(os.path.join(wd, "MT.tla"), "w") as f:
+        f.write("---- MODULE MT ----\nEXTENDS MapperTrace\nMCProps == {\"C19\", \"RA\"}\nMCKnown == {}\n====\n")
+    with open(os.path.join(wd, "MT.cfg"), "w") as f:
+        f.write("SPECIFICATION Spec\nCONSTANTS\n  Props <- MCProps\n  KnownIds <- MCKnown\nPOSTCONDITION Accepted\nCHECK_DEADLOCK FALSE\n")
+
+    def runw(mutate, label):
+        rows = copy.deepcopy(wbase)
+        if mutate:
+            mutate(rows)
+        p = os.path.join(wd, "w_%s.ndjson" % label)
+        write_ndjson(p, rows)
+        r = TlcRun(wd, "MT.tla", "MT.cfg", env={"TRACE": p}, name="mt_" + label, deque=True).run()
+        if r.other_error():
+            return {"TOOL-ERROR: " + r.other_error()[:200]}
+        out = set()
+        for l in r.printed("BAD"):
+            out |= set(parse_tla_value(l)[2])
+        if r.printed("DRIFT"):
+            out.add("drift")
+        return out
+    expect("SYS walk through the real loop as recorded: accepted, no drift", runw(None, "clean"), [])
+
+    def w1(rows):   # the loop "forgets" to write a press
+        i = idx(rows, lambda r: r.get("c") == "step" and any(e["t"] == "P" for e in r.get("ev", [])))
+        rows[i]["ev"] = [e for e in rows[i]["ev"] if e["t"] != "P"]
+    expect("SYS a written press dropped from a loop walk -> C19 bookkeeping clause", runw(w1, "nopress"), ["C19-book", "C19"])
+
+
 def case_judges(exe):
     wd = workdir("selftest-e3")
     # C18: flip one byte of one recorded write
@@ -224,6 +322,7 @@ def main():
     exe = build_harness()
     mapper_table(exe)
     loop_traces(exe)
+    sys_level(exe)
     case_judges(exe)
     bad = [o for o in OUT if not o[1]]
     log("selftest: %d controls, %d failed" % (len(OUT), len(bad)))
